@@ -149,6 +149,9 @@ def run_check(P, tier, seed, a):
         stats['by_solver'][r['solver']] = stats['by_solver'].get(r['solver'], 0) + len(b['goals'])
         for gi, (g, ans) in enumerate(zip(b['goals'], r['answers'])):
             stats['queries'] += 1 if ans != 'structural' else 0
+            if r.get('pin_rejected'):
+                # the explicit point stays a candidate for native replay unless the unpinned query produced its own model
+                b = dict(b, hint_env=(None if ans == 'sat' else b.get('hint_env')), hinted=False, file=b.get('file_free') or b['file'])
             rec = dict(job=b['job'], path=b['path'], tag=g['tag'], k=g['k'], kind=g['kind'], answer=ans, batch=b, gi=gi, raw_model=r.get('raw_model'))
             if g['kind'] == 'witness':
                 if ans == 'sat':
@@ -176,6 +179,7 @@ def run_check(P, tier, seed, a):
     # ---------------------------------------------------------------- violations
     violations = []   # dict(key, what, replay, confirmed)
     inconclusive = []
+    soft_inconclusive = []     # refutation-only jobs: a model that does not reproduce natively is 'not decided', not a problem
     replay_dir = os.path.join(VERIF, 'replay', pid)
     per_key = {}
     attempts = {}
@@ -210,7 +214,7 @@ def run_check(P, tier, seed, a):
         attempts[key] = attempts.get(key, 0) + 1
         if attempts[key] > MAX_REPLAYS_PER_KEY + 3:
             if rec['answer'] == 'sat':
-                inconclusive.append(f'{key}[{rec["k"]}]: sat, not replayed (replay budget for this family used up)')
+                (soft_inconclusive if job.get('undecided_ok') else inconclusive).append(f'{key}[{rec["k"]}]: sat, not replayed (replay budget for this family used up)')
             continue
         if b.get('hint_env'):
             env, raw = {k: Fraction(v) for k, v in b['hint_env'].items()}, ''
@@ -221,7 +225,7 @@ def run_check(P, tier, seed, a):
         if env is None and b.get('file') and not driver.declared_syms(open(b['file']).read()):
             env = {}     # the obligation has no free symbol (a concrete fact about this configuration): replayed as is
         if env is None:
-            inconclusive.append(f'{key}: solver said sat but produced no model')
+            (soft_inconclusive if job.get('undecided_ok') else inconclusive).append(f'{key}: solver said sat but produced no model')
             continue
         env.update(summaries[rec['job']]['paths'][rec['path']].get('choices', {}))
         os.makedirs(replay_dir, exist_ok=True)
@@ -233,7 +237,7 @@ def run_check(P, tier, seed, a):
         if confirmed is None and rec['answer'] == 'sat' and not b.get('hint_env') and (b['goals'][rec['gi']].get('sides')):
             # the model violates the obligation in exact arithmetic by less than a floating-point run can show: ask for a
             # model that violates it by a margin above the replay tolerance and replay that one
-            mg = driver.margin_assert(rec['kind'], b['goals'][rec['gi']]['sides'], open(b['file']).read())
+            mg = driver.margin_assert(rec['kind'], b['goals'][rec['gi']]['sides'], open(b['file']).read(), rel=job.get('margin_rel', '0.000001'))
             if mg:
                 env2, raw2 = driver.get_model(b, rec['gi'], extra_asserts=[mg], cap=(b.get('cap') or 60) if quick else 300)
                 if env2:
@@ -242,7 +246,7 @@ def run_check(P, tier, seed, a):
                     confirmed = confirm(exe, job, rec, env2, fn)
         if confirmed is None:
             if rec['answer'] == 'sat':
-                inconclusive.append(f'{key}[{rec["k"]}]: model does not reproduce natively (replay {fn})')
+                (soft_inconclusive if job.get('undecided_ok') else inconclusive).append(f'{key}[{rec["k"]}]: model does not reproduce natively (replay {fn})')
             continue
         if rec['answer'] != 'sat':
             confirmed += ' (point found by exact/numeric evaluation of the obligation; solver verdict on it: ' + rec['answer'] + ')'
@@ -313,7 +317,13 @@ def run_check(P, tier, seed, a):
     for d in diffs:
         if not d.get('ok'):
             problems.append(f'differential validation failed for job {jobs[d["idx"]].get("label")}: {d.get("why")}')
-    undec = stats['undecided']
+    # refutation-only jobs (job option undecided_ok): the obligation is beyond the solver on a correct tree; it is registered so
+    # that a violation is found (solver model or explicit point, replayed natively), and is listed as NOT decided otherwise
+    refute_only = [r for r in stats['undecided'] if jobs[r['job']].get('undecided_ok')]
+    undec = [r for r in stats['undecided'] if not jobs[r['job']].get('undecided_ok')]
+    if refute_only or soft_inconclusive:
+        print(f'NOT-DECIDED {len(refute_only)} obligations of refutation-only jobs (searched for a counterexample, none found; not counted as discharged), e.g. ' +
+              ', '.join(f'{jobs[r["job"]].get("label")}' for r in refute_only[:4]) + (f'; {len(soft_inconclusive)} more with a solver model that does not reproduce natively' if soft_inconclusive else ''))
     # ---------------------------------------------------------------- report
     for m_, (e, vs) in known_hits.items():
         print(f'KNOWN-FINDING: property={pid} {e["what"]}  [{len(vs)} obligations; e.g. {vs[0]["what"]}]')
@@ -331,6 +341,8 @@ def run_check(P, tier, seed, a):
         rule='an obligation is one assertion of one path of one harness configuration; it is non-trivial when its two sides are different hash-consed terms (a solver query was needed)',
         undecided=[dict(job=jobs[r['job']].get('label'), obligation=f'{r["tag"]}[{r["k"]}]', answer=r['answer']) for r in undec[:50]],
         n_undecided=len(undec),
+        refutation_only_model_not_reproduced=soft_inconclusive[:80],
+        refutation_only_not_decided=[dict(job=jobs[r['job']].get('label'), obligation=f'{r["tag"]}[{r["k"]}]', answer=r['answer']) for r in refute_only[:80]],
         sat_obligations=len(stats['sat']), known_finding_obligations=sum(len(vs) for e, vs in known_hits.values()),
         path_witnesses_sat=stats['witness_ok'], path_feasibility_undecided=len(stats.get('witness_undecided', [])), path_witnesses_concrete=sum(s.get('concrete_witnesses', 0) for s in summaries), path_witnesses_numeric_only=sum(s.get('numeric_witnesses', 0) for s in summaries),
         jobs=[dict(label=jobs[s['idx']].get('label'), entry=s['entry'], args=s['args'], paths=len(s['paths']), outcomes=s['outcomes'],
